@@ -138,11 +138,11 @@ def walk_graphql_files(path: Path) -> Generator[Path, None, None]:
 
 def read_graphql_file(path: Path) -> str:
     """Return content of file."""
-    with open(path, encoding="utf-8") as graphql_file:
-        schema = graphql_file.read()
     try:
+        with open(path, encoding="utf-8") as graphql_file:
+            schema = graphql_file.read()
         parse(schema)
-    except GraphQLSyntaxError as exc:
+    except (GraphQLSyntaxError, UnicodeDecodeError) as exc:
         raise InvalidGraphqlSyntax(f"Invalid graphql syntax in file {path}") from exc
     return schema
 
